@@ -3,16 +3,11 @@ import HH.Machine
 /-!
 # Driver — the model behind the line protocol
 
-One operation per input line, one canonical result per output line.  The Rust harness
-(`/verif/harness/drive`) executes the same lines on the real crate; `bin/check` diffs the streams.
+One operation per input line, one canonical result per output line.  The Rust runners
+(`/verif/harness/*`) execute the same lines on the real crate; `bin/check` diffs the streams.
+Usage: `driver "<cfg line printed by the runner's --info>"`.
 -/
 open HH
-
-structure Handle where
-  auto : Bool
-  h : Hasher
-
-abbrev World := Array (Option Handle)
 
 def parseSel? : String → Option Sel
   | "portable" => some (.only .portable)
@@ -26,124 +21,95 @@ def parseSel? : String → Option Sel
 def parseKey? (a b c d : String) : Option V4 := do
   pure ⟨← parseU64? a, ← parseU64? b, ← parseU64? c, ← parseU64? d⟩
 
-def hex128 (x : BitVec 64 × BitVec 64) : String := u64Hex x.1 ++ u64Hex x.2
-def hex256 (x : BitVec 64 × BitVec 64 × BitVec 64 × BitVec 64) : String :=
-  u64Hex x.1 ++ u64Hex x.2.1 ++ u64Hex x.2.2.1 ++ u64Hex x.2.2.2
+def parseWidth? : String → Option Width
+  | "64" => some .w64 | "128" => some .w128 | "256" => some .w256 | _ => none
 
-structure Env where
-  /-- back end chosen by `HighwayHasher::new` / `from_checkpoint` in the configuration under test -/
-  autoBackend : Backend := .portable
+def digestHex : Digest → String
+  | .d64 x => u64Hex x
+  | .d128 x => u64Hex x.1 ++ u64Hex x.2
+  | .d256 x => u64Hex x.1 ++ u64Hex x.2.1 ++ u64Hex x.2.2.1 ++ u64Hex x.2.2.2
 
-def resolve (env : Env) : Sel → Backend
-  | .only b => b
-  | .auto => env.autoBackend
+def outStr : Out → String
+  | .ok => "ok" | .none => "none" | .nohandle => "nohandle"
+  | .n k => s!"n={k}"
+  | .bytes b => bytesHex b
+  | .digest d => digestHex d
+  | .tag true t => s!"tag={t}"
+  | .tag false t => s!"backend={t}"
 
-def tagOf : Backend → Nat
-  | .portable => 0 | .avx => 1 | .sse => 2 | .neon => 3 | .wasm => 4
-
-def put (w : World) (i : Nat) (v : Option Handle) : World :=
-  if i < w.size then w.set! i v else w
-
-def get (w : World) (i : Nat) : Option Handle :=
-  if h : i < w.size then w[i] else none
-
-def finW (h : Hasher) : String → Option String
-  | "64" => some (u64Hex h.finalize64)
-  | "128" => some (hex128 h.finalize128)
-  | "256" => some (hex256 h.finalize256)
+/-- `none` = malformed line; `some (none, s)` = answered by the driver itself with `s` -/
+def parseOp (env : Env) (line : String) : Option (Option Op × String) :=
+  match line.trimAscii.toString.splitOn " " with
+  | ["reset"] => some (some .reset, "")
+  | [op, hs, sel, a, b, c, d] =>
+    if op == "new" || op == "fnew" then do
+      let h ← hs.toNat?; let s ← parseSel? sel; let k ← parseKey? a b c d
+      pure (some (.new h s (op == "fnew") k), "")
+    else none
+  | ["default", hs, sel] => do
+    let h ← hs.toNat?; let s ← parseSel? sel
+    pure (some (.default h s), "")
+  | [op, hs, sel, x] =>
+    if op == "restore" || op == "frestore" then do
+      let h ← hs.toNat?; let s ← parseSel? sel; let c ← parseBytes? x
+      if c.length ≠ 164 then none else pure (some (.restore h s (op == "frestore") c), "")
+    else if op == "restoreh" || op == "frestoreh" then do
+      let h ← hs.toNat?; let s ← parseSel? sel; let j ← x.toNat?
+      pure (some (.restoreH h s (op == "frestoreh") j), "")
+    else none
+  | [op, hs, x] =>
+    if op == "clone" then do
+      let h ← hs.toNat?; let j ← x.toNat?
+      pure (some (.clone h j), "")
+    else if op == "fin" then do
+      let h ← hs.toNat?; let w ← parseWidth? x
+      pure (some (.fin h w), "")
+    else if op == "append" || op == "hwrite" then do
+      let h ← hs.toNat?; let d ← parseBytes? x
+      pure (some (.append h d), "")
+    else if op == "iowrite" || op == "iocopy" || op == "writeall" then do
+      let h ← hs.toNat?; let d ← parseBytes? x
+      if !env.cfg.std then pure (none, "unsupported")
+      else if op == "writeall" then pure (some (.append h d), "")
+      else pure (some (.ioWrite h d), "")
+    else none
+  | [op, hs] => do
+    let h ← hs.toNat?
+    if op == "ckpt" then pure (some (.ckpt h), "")
+    else if op == "finish" then pure (some (.finish h), "")
+    else if op == "flush" then (if env.cfg.std then pure (some (.flush h), "") else pure (none, "unsupported"))
+    else if op == "drop" then pure (some (.drop h), "")
+    else if op == "debug" then pure (some (.debug h), "")
+    else none
+  | [op, sel, wd, a, b, c, d, x] =>
+    if op == "hash" || op == "fhash" then do
+      let s ← parseSel? sel; let w ← parseWidth? wd; let k ← parseKey? a b c d; let data ← parseBytes? x
+      pure (some (.hash s (op == "fhash") w k data), "")
+    else if op == "spec" then none
+    else none
   | _ => none
 
-def step (env : Env) (w : World) (line : String) : World × String :=
+def specLine (line : String) : Option String :=
   match line.trimAscii.toString.splitOn " " with
-  | ["new", hs, sel, a, b, c, d] =>
-    match hs.toNat?, parseSel? sel, parseKey? a b c d with
-    | some i, some s, some k =>
-      match Hasher.new (resolve env s) k with
-      | some h => (put w i (some ⟨s == .auto, h⟩), "ok")
-      | none => (put w i none, "none")
-    | _, _, _ => (w, "bad-op")
-  | ["default", hs, sel] =>
-    match hs.toNat?, parseSel? sel with
-    | some i, some s =>
-      match Hasher.default (resolve env s) with
-      | some h => (put w i (some ⟨s == .auto, h⟩), "ok")
-      | none => (put w i none, "none")
-    | _, _ => (w, "bad-op")
-  | ["restore", hs, sel, hex] =>
-    match hs.toNat?, parseSel? sel, parseBytes? hex with
-    | some i, some s, some c =>
-      if c.length ≠ 164 then (w, "bad-op") else
-      match Hasher.fromCheckpoint (resolve env s) c with
-      | some h => (put w i (some ⟨s == .auto, h⟩), "ok")
-      | none => (put w i none, "none")
-    | _, _, _ => (w, "bad-op")
-  | ["restoreh", hs, sel, src] =>
-    match hs.toNat?, parseSel? sel, src.toNat? with
-    | some i, some s, some j =>
-      match get w j with
-      | some x =>
-        match Hasher.fromCheckpoint (resolve env s) x.h.checkpoint with
-        | some h => (put w i (some ⟨s == .auto, h⟩), "ok")
-        | none => (put w i none, "none")
-      | none => (w, "nohandle")
-    | _, _, _ => (w, "bad-op")
-  | [op, hs, hex] =>
-    match hs.toNat? with
+  | ["spec", wd, a, b, c, d, x] => do
+    let k ← parseKey? a b c d; let data ← parseBytes? x
+    if wd == "64" then pure (u64Hex (Spec.hash64 k data))
+    else if wd == "128" then (let r := Spec.hash128 k data; pure (u64Hex r.1 ++ u64Hex r.2))
+    else if wd == "256" then (let r := Spec.hash256 k data; pure (u64Hex r.1 ++ u64Hex r.2.1 ++ u64Hex r.2.2.1 ++ u64Hex r.2.2.2))
+    else none
+  | _ => none
+
+def stepLine (env : Env) (w : World) (line : String) : World × String :=
+  if line.trimAscii.toString == "" then (w, "") else
+  match specLine line with
+  | some s => (w, s)
+  | none =>
+    match parseOp env line with
     | none => (w, "bad-op")
-    | some i =>
-      if op == "clone" then
-        match hex.toNat? with
-        | some j => (match get w i with
-            | some x => (put w j (some x), "ok")
-            | none => (w, "nohandle"))
-        | none => (w, "bad-op")
-      else if op == "fin" then
-        match get w i with
-        | some x => (match finW x.h hex with
-            | some r => (put w i none, r)
-            | none => (w, "bad-op"))
-        | none => (w, "nohandle")
-      else
-      match get w i, parseBytes? hex with
-      | some x, some d =>
-        if op == "append" || op == "hwrite" then (put w i (some { x with h := x.h.append d }), "ok")
-        else if op == "iowrite" then (put w i (some { x with h := x.h.append d }), s!"n={d.length}")
-        else (w, "bad-op")
-      | none, some _ => (w, "nohandle")
-      | _, none => (w, "bad-op")
-  | [op, hs] =>
-    match hs.toNat? with
-    | none => (w, "bad-op")
-    | some i =>
-      match get w i with
-      | none => (w, "nohandle")
-      | some x =>
-        if op == "ckpt" then (w, bytesHex x.h.checkpoint)
-        else if op == "finish" then (w, u64Hex x.h.finalize64)
-        else if op == "flush" then (w, "ok")
-        else if op == "drop" then (put w i none, "ok")
-        else if op == "debug" then
-          (w, if x.auto then s!"tag={tagOf x.h.backend}" else s!"backend={tagOf x.h.backend}")
-        else (w, "bad-op")
-  | ["hash", sel, wd, a, b, c, d, hex] =>
-    match parseSel? sel, parseKey? a b c d, parseBytes? hex with
-    | some s, some k, some data =>
-      match Hasher.new (resolve env s) k with
-      | some h => (match finW (h.append data) wd with
-          | some r => (w, r)
-          | none => (w, "bad-op"))
-      | none => (w, "none")
-    | _, _, _ => (w, "bad-op")
-  | ["spec", wd, a, b, c, d, hex] =>
-    match parseKey? a b c d, parseBytes? hex with
-    | some k, some data =>
-      if wd == "64" then (w, u64Hex (Spec.hash64 k data))
-      else if wd == "128" then (w, hex128 (Spec.hash128 k data))
-      else if wd == "256" then (w, hex256 (Spec.hash256 k data))
-      else (w, "bad-op")
-    | _, _ => (w, "bad-op")
-  | [""] => (w, "")
-  | _ => (w, "bad-op")
+    | some (none, s) => (w, s)
+    | some (some op, _) =>
+      let (w', o) := step env w op
+      (w', outStr o)
 
 partial def loop (env : Env) (h : IO.FS.Stream) (out : IO.FS.Stream) (w : World) : IO Unit := do
   let line ← h.getLine
@@ -152,17 +118,27 @@ partial def loop (env : Env) (h : IO.FS.Stream) (out : IO.FS.Stream) (w : World)
     out.putStrLn line.trimAscii.toString
     loop env h out w
   else
-    let (w', o) := step env w line
+    let (w', o) := stepLine env w line
     out.putStrLn o
     loop env h out w'
 
-def parseBackendName : String → Backend
-  | "sse" => .sse | "avx" => .avx | "neon" => .neon | "wasm" => .wasm | _ => .portable
+/-- parse the `cfg k=v …` line printed by a runner's `--info` -/
+def parseEnv (s : String) : Env :=
+  let kv := (s.splitOn " ").filterMap fun t => match t.splitOn "=" with
+    | [k, v] => some (k, v) | _ => none
+  let get (k : String) : String := ((kv.find? (·.1 == k)).map (·.2)).getD ""
+  let arch : Arch := match get "arch" with
+    | "x86_64" => .x86_64
+    | "aarch64" => .aarch64
+    | "wasm32" => if get "simd128" == "1" then .wasmSimd else .other
+    | _ => .other
+  { cfg := { arch := arch, std := get "std" == "1", tfSse41 := get "tf_sse41" == "1", tfAvx2 := get "tf_avx2" == "1" },
+    cpu := { sse41 := get "cpu_sse41" == "1", avx2 := get "cpu_avx2" == "1" } }
 
 def main (args : List String) : IO Unit := do
   let env : Env := match args with
-    | [a] => { autoBackend := parseBackendName a }
-    | _ => {}
+    | [a] => parseEnv a
+    | _ => { cfg := { arch := .other, std := true, tfSse41 := false, tfAvx2 := false }, cpu := { sse41 := false, avx2 := false } }
   let stdin ← IO.getStdin
   let stdout ← IO.getStdout
-  loop env stdin stdout (Array.replicate 64 none)
+  loop env stdin stdout []
